@@ -1823,6 +1823,101 @@ Definition delivery_at_quiescence_statement : Prop :=
     (* totality: a slot delivered by one honest party is delivered by all *)
     (forall p j s v, In (p, (id, j, s), v) (glog (run es)) -> forall q, hon q -> exists v', In (q, (id, j, s), v') (glog (run es))).
 
+(* ---- the delivery clause at quiescence (FIFO root channel) ------------------------------------------------ *)
+Lemma intersect_honest_gen : forall (L1 L2 : list Z), NoDup L1 -> NoDup L2 ->
+  (forall l, In l L1 -> 0 <= l < n) -> (forall l, In l L2 -> 0 <= l < n) ->
+  n + Z.of_nat (length B) < Z.of_nat (length L1) + Z.of_nat (length L2) ->
+  exists l, In l L1 /\ In l L2 /\ ~ In l B.
+Proof.
+  intros L1 L2 ND1 ND2 R1 R2 Len.
+  set (C := filter (fun l => existsb (Z.eqb l) L2) L1).
+  set (D := filter (fun l => negb (existsb (Z.eqb l) L2)) L1).
+  assert (LC : (length C + length D = length L1)%nat).
+  { unfold C, D. clear. induction L1 as [|a r IH]; cbn; auto. destruct (existsb (Z.eqb a) L2); cbn; lia. }
+  assert (NDD : NoDup (D ++ L2)).
+  { apply NoDup_app_disjoint; auto.
+    - apply NoDup_filter; auto.
+    - intros x Ix I2. apply filter_In in Ix. destruct Ix as [_ Ix]. apply negb_true_iff in Ix.
+      apply in_existsb_eqb in I2. congruence. }
+  assert (LD : Z.of_nat (length (D ++ L2)) <= n).
+  { apply bounded_nodup_length; auto; [lia|]. intros l I. apply in_app_or in I. destruct I as [I|I]; auto.
+    apply filter_In in I. destruct I as [I _]. auto. }
+  rewrite app_length in LD.
+  assert (NC : NoDup C) by (apply NoDup_filter; auto).
+  destruct (nodup_exceeds_honest B C NC) as (l & Il & Nl); [lia|].
+  apply filter_In in Il. destruct Il as [I1 I2]. apply in_existsb_eqb in I2. eauto.
+Qed.
+
+(* a party that has fixed the digest of a slot has attempted its delivery once everything is handed over *)
+Lemma dbar_TD : forall g, ALL g -> handed_over g -> forall q tg d, hon q -> dbar (gp g q) tg = Some d -> TD g q tg.
+Proof.
+  intros g (I & I2 & _ & I4 & (_ & _ & _ & Ra & Rb & _ & Rc & A10 & A11 & A12 & _)) HO q tg d Hq D.
+  destruct (A12 q tg) as [T|(x & Ax & Tx & Al)]; [congruence|exact T|].
+  assert (I0 : In (q, 0, x) (gsent g)) by (apply Al; lia).
+  pose proof (Ra _ _ _ I0 Ax) as Dx. rewrite Tx, D in Dx. inversion Dx as [Pd]. clear Dx.
+  destruct (Rc _ _ _ I0 Ax) as (W & NDW & LenW & AW). rewrite Tx, <- Pd in AW.
+  destruct (intersect_honest_gen W (range (2 * t + 1))) as (l & JW & J2 & NB); auto.
+  { apply range_nodup. } { intros l J. apply AW in J. tauto. } { intros l J. apply range_in in J. lia. }
+  { unfold range at 1. rewrite map_length, seq_length. lia. }
+  apply range_in in J2. destruct (AW l JW) as (Rl & [Y|(Ec & An)]); [exfalso; auto|].
+  assert (Hl : hon l) by (apply honest_of; auto).
+  assert (Nbl : byz l = false). { destruct (byz l) eqn:Y; auto. exfalso; auto. }
+  assert (Iq : In (q, l, x) (gsent g)) by (apply Al; lia).
+  pose proof (HO _ _ _ Iq Hl) as F. rewrite Ax, Tx in F. cbn in F. specialize (F ltac:(lia)).
+  destruct (An F) as (a & Ia & Aa & Ta).
+  pose proof (HO _ _ _ Ia Hq) as Fa. rewrite Aa, Ta in Fa. cbn in Fa. specialize (Fa ltac:(lia)).
+  destruct (A11 _ _ _ Fa Nbl) as [T|(a' & db & Ia' & Aa' & Ta' & Db & NE)]; [exact T|].
+  exfalso. rewrite D in Db. inversion Db; subst db. apply NE.
+  destruct (A10 _ _ _ Ia' Aa') as (_ & [E'|S']); rewrite Ta' in *.
+  - pose proof I as (_ & _ & _ & A3 & _).
+    destruct Ec as (d1 & e1 & Ie1 & Te1 & Ae1 & Pe1). destruct E' as (d2 & e2 & Ie2 & Te2 & Ae2 & Pe2).
+    rewrite <- Pe1, <- Pe2. eapply A3; eauto. congruence.
+  - eapply (Sup_unique g I); eauto. eapply dbar_Sup; eauto.
+Qed.
+
+(* the deliver buffer drains in sequence order *)
+Lemma TD_delivered : forall g, ALL g -> buffers_drained g -> forall q w s, hon q -> 1 <= s -> TD g q (0, w, s) ->
+  (forall s', 1 <= s' < s -> exists v, In (q, (0, w, s'), v) (glog g)) -> exists v, In (q, (0, w, s), v) (glog g).
+Proof.
+  intros g (_ & _ & _ & (NSg & (DLa & DLb & DLc) & _) & _) BD q w s Hq S1 T IH.
+  destruct (NSg q) as [C F].
+  assert (LT : s < dls (gp g q) w -> exists v, In (q, (0, w, s), v) (glog g)) by (intros; apply DLb; lia).
+  destruct T as [T|[T|T]]; auto.
+  - pose proof (BD q Hq _ T) as ND. unfold deliverable in ND. rewrite C, F in ND. cbn in ND. rewrite orb_false_r in ND.
+    apply Z.eqb_neq in ND. destruct (Z.lt_ge_cases s (dls (gp g q) w)) as [X|X]; auto.
+    exfalso. pose proof (DLc q w) as D1. destruct (IH (dls (gp g q) w)) as (v & Iv); [lia|].
+    apply DLa in Iv. lia.
+  - unfold obsolete in T. rewrite C, F in T. cbn in T. apply Z.ltb_lt in T. auto.
+Qed.
+
+(* TOTALITY on the FIFO root channel: what one honest party has delivered, every honest party has delivered *)
+Theorem totality_at_quiescence : forall es, forallb noswitch es = true ->
+  handed_over (run es) -> buffers_drained (run es) ->
+  forall p tg v, In (p, tg, v) (glog (run es)) -> forall q, hon q -> In (q, tg, v) (glog (run es)).
+Proof.
+  intros es NSes HO BD. pose proof (ALL_run es NSes) as A. set (g := run es) in *.
+  pose proof A as (I & I2 & I3 & (NSg & (DLa & DLb & DLc) & _) & (_ & _ & _ & _ & _ & _ & _ & _ & _ & _ & (A13 & _))).
+  assert (RQ : ready_quiescent g).
+  { intros l q m Im Am Hq. pose proof (HO _ _ _ Im Hq) as F. rewrite Am in F. cbn in F. apply F. lia. }
+  (* existence, by induction on the sequence number *)
+  assert (EX : forall k : nat, forall w s p v, (Z.to_nat s <= k)%nat -> In (p, (0, w, s), v) (glog g) ->
+               forall q, hon q -> exists v', In (q, (0, w, s), v') (glog g)).
+  { induction k as [|k IHk]; intros w s p v Sk Ip q Hq.
+    - apply DLa in Ip. lia.
+    - pose proof (DLa _ _ _ _ _ Ip) as (_ & Rs).
+      destruct (A13 _ _ _ _ Ip) as (p' & d & Dp).
+      assert (Dq : dbar (gp g q) (0, w, s) = Some d).
+      { unfold g. eapply totality_digest; eauto. }
+      apply (TD_delivered g A BD q w s Hq); [lia|eapply dbar_TD; eauto|].
+      intros s' Rs'. destruct (DLb p w s') as (v1 & I1); [lia|].
+      eapply (IHk w s' p v1); eauto. lia. }
+  intros p [[id w] s] v Ip q Hq. pose proof (DLa _ _ _ _ _ Ip) as (-> & _).
+  destruct (EX (Z.to_nat s) w s p v (le_n _) Ip q Hq) as (v' & Iq).
+  assert (v' = v); [|subst; exact Iq].
+  apply H_inj. unfold g in *. eapply agreement_digest_full; eauto.
+Qed.
+
+
 End Bracha.
 
 (* ---- the property statements with a collision-free digest hash ------------------------------------------- *)
